@@ -1,10 +1,100 @@
 import PyxModel.Sexp
+import PyxModel.Meta
+import PyxModel.Query
+import Driver.C02
 
-/-! driver commands of property C09 (stub: no command yet) -/
+/-!
+  driver commands of property C09:
+
+  (query <schema> (ops <history ops>…) (attrs (inst ("P" 3) ("Q" 1) …) …)
+         (queries (select-many k <qops>) (select-one k <qops>)
+                  (nav-many (handle…) (steps (toKind "R1" "phrase")…) <qops>) (nav-one …) (subtype x "R4") …))
+  qops ::= (qops (where ("P" 3) ("Q" none) …) (order ("P" "Q") T|F) (pred lt "P" 3) (pred ge "P" 3) (pred sum "P" "Q" 4) (pred tt) …)
+  answer: one entry per query: a list of instance indices, `none`/index for the single forms,
+  `UnknownLinkException` when navigation raises.
+-/
 namespace Pyx.Driver.C09
-open Pyx Pyx.Sexp
+open Pyx Pyx.Sexp Pyx.Meta Pyx.Query Pyx.Driver.C02
+
+def optInt : Sexp → Option Int
+  | int i => some i
+  | _ => none
+
+def decodePair : Sexp → Option (String × Option Int)
+  | list [a, v] => (asStr? a).map fun a => (a, optInt v)
+  | _ => none
+
+def decodeQOp : Sexp → Option QOp
+  | list (sym "where" :: ps) => some (.whereEq (ps.filterMap decodePair))
+  | list [sym "order", list as, rev] => some (.orderBy (as.filterMap asStr?) ((asBool? rev).getD false))
+  | list [sym "pred", sym "lt", a, int c] => (asStr? a).map fun a => .pred (.ltC a c)
+  | list [sym "pred", sym "ge", a, int c] => (asStr? a).map fun a => .pred (.geC a c)
+  | list [sym "pred", sym "sum", a, b, int c] => do pure (.pred (.sumEq (← asStr? a) (← asStr? b) c))
+  | list [sym "pred", sym "tt"] => some (.pred .tt)
+  | _ => none
+
+def decodeQOps : Sexp → List QOp
+  | list (sym "qops" :: xs) => xs.filterMap decodeQOp
+  | _ => []
+
+def decodeStep : Sexp → Option Step
+  | list [int k, r, p] => do pure { toKind := k.toNat, rel := (← asStr? r), phrase := (← asStr? p) }
+  | _ => none
+
+def decodeSteps : Sexp → List Step
+  | list (sym "steps" :: xs) => xs.filterMap decodeStep
+  | _ => []
+
+def decodeAttrs (x : Sexp) : List (Nat × List (String × Int)) :=
+  match x with
+  | list (sym "attrs" :: es) => es.filterMap fun e =>
+    match e with
+    | list (int i :: ps) => some (i.toNat, ps.filterMap fun p =>
+        match p with
+        | list [a, int v] => (asStr? a).map fun a => (a, v)
+        | _ => none)
+    | _ => none
+  | _ => []
+
+def mkVal (sc : Sch) (s : State) (plain : List (Nat × List (String × Int))) : Valuation := fun x name =>
+  match (plain.lookup x).bind (fun ps => ps.lookup name) with
+  | some v => some v
+  | none => (getAttr sc.assocs sc.attrs s (2 * sc.assocs.length + 4) x name).map Int.ofNat
+
+def optInst : Option Inst → Sexp
+  | some x => int x
+  | none => sym "none"
+
+def runQuery (sc : Sch) (val : Valuation) (s : State) : Sexp → Sexp
+  | list [sym "select-many", int k, q] => ofNats (selectMany val s k.toNat (decodeQOps q))
+  | list [sym "select-one", int k, q] => optInst (selectOne val s k.toNat (decodeQOps q))
+  | list [sym "nav-many", list h, st, q] =>
+    match navMany sc.assocs val s (h.filterMap asNat?) (decodeSteps st) (decodeQOps q) with
+    | some l => ofNats l
+    | none => sym "UnknownLinkException"
+  | list [sym "nav-one", list h, st, q] =>
+    match navOne sc.assocs val s (h.filterMap asNat?) (decodeSteps st) (decodeQOps q) with
+    | some r => optInst r
+    | none => sym "UnknownLinkException"
+  | list [sym "subtype", int x, r] =>
+    match navSubtype sc.assocs s x.toNat ((asStr? r).getD "") with
+    | some r => optInst r
+    | none => sym "UnknownLinkException"
+  | _ => sym "bad-query"
+
+def finalState (sc : Sch) (ops : List Sexp) : State :=
+  ops.foldl (fun s o => match decodeOp sc o with
+    | some op => (step sc.assocs s op).1
+    | none => s) init
 
 def handle : List Sexp → Option Sexp
+  | [sym "query", sch, list (sym "ops" :: ops), attrs, list (sym "queries" :: qs)] =>
+    match decodeSchema sch with
+    | some sc =>
+      let s := finalState sc ops
+      let val := mkVal sc s (decodeAttrs attrs)
+      some (list (qs.map (runQuery sc val s)))
+    | none => some (sym "bad-schema")
   | _ => none
 
 end Pyx.Driver.C09
